@@ -57,6 +57,8 @@ KM = {
     'big2': lambda i: 10 ** 20 + _m2(i),        # large ints are not cached
     'flt2': lambda i: (0.25 + _m2(i)) * 2.0,    # floats computed at run time: equal, never identical
     'str2': lambda i: 'k' + ('0' if i % 2 == 0 else '1'),
+    'neg2': lambda i: -1 - _m2(i),              # -1 and -2 have the same CPython hash: distinct keys, equal hashes
+    'negt': lambda i: (-1 - _m2(i), 'g'),
     'mod3': _m3,
     'tup3': lambda i: (_m3(i),),
     'div3': lambda i: (i // 3,),
@@ -307,7 +309,7 @@ def depth_of(desc):
 
 BRANCH = {'filter_even': 2, 'filter_odd': 2, 'filter_pos': 2, 'scan_max': 2, 'min': 2, 'max_r': 2, 'duc': 2, 'duc_k': 2, 'clip': 3,
           'distinct': 2, 'fill_none': 1}
-KBRANCH = {'mod2': 2, 'tup2': 2, 'big2': 2, 'flt2': 2, 'str2': 2, 'mod3': 3, 'tup3': 3, 'div3': 7}
+KBRANCH = {'neg2': 2, 'negt': 2, 'mod2': 2, 'tup2': 2, 'big2': 2, 'flt2': 2, 'str2': 2, 'mod3': 3, 'tup3': 3, 'div3': 7}
 
 
 def branching(desc):
